@@ -7,6 +7,7 @@ from fractions import Fraction as F
 
 import core
 import fracexec
+import rsmcoef
 from fracexec import frac_str, frac_list
 
 MODULE = 'UwgVerif.Props.C16'
@@ -17,6 +18,15 @@ THEOREMS = [
     'Uwg.C16.solver_exact', 'Uwg.C16.solver_exact_of_sdd', 'Uwg.C16.solver_exact_of_mrows',
     'Uwg.C16.solver_unique', 'Uwg.C16.solveChecked_exact', 'Uwg.C16.solveChecked_of_sdd',
     'Uwg.solve_sound', 'Uwg.pivots_of_sdd', 'Uwg.pivots_of_mrows',
+]
+# second part: the inputs vdm hands to diffusion_equation are admissible (Props/C16Coef.lean)
+MODULE_COEF = 'UwgVerif.Props.C16Coef'
+THEOREMS += [
+    'Uwg.C16.te_pos', 'Uwg.C16.kt_nonneg', 'Uwg.C16.kt_formula', 'Uwg.C16.kt_nonneg_real', 'Uwg.C16.stub_sqrt_nonneg',
+    'Uwg.C16.length_scale_start_or_ge_one', 'Uwg.C16.gridOK_of_meso', 'Uwg.C16.density_pos',
+    'Uwg.C16.density_pos_real', 'Uwg.C16.stub_rpow_pos', 'Uwg.C16.vdm_step_admissible',
+    'Uwg.C16.vdm_diffusion_returns', 'Uwg.C16.vdm_decompose', 'Uwg.C16.vdm_max_principle',
+    'Uwg.C16.vdm_max_principle_real', 'Uwg.C16.vdm_boundaries', 'Uwg.C16.vdm_conservation', 'Uwg.C16.vdm_step_preserves',
 ]
 
 
@@ -335,7 +345,7 @@ def case_unjson(d):
 
 
 # ----------------------------------------------------------------------------- live check
-def live_profiles(chk, ndays=1):
+def live_profiles(chk, ndays=1, coef_rec=None, hyp_rec=None):
     """Run a short real (float) simulation with a recording wrapper around
     RSMDef.diffusion_equation and check bottom / top / bounds on every call.
     Tolerance 1e-9*max|T| (rounding can never trip it: the bottom and top identities are exact in
@@ -357,6 +367,31 @@ def live_profiles(chk, ndays=1):
         rec.append((nz, co0, list(r), min(cd0), (len(co0), len(da), len(daz), len(cd0), len(dz))))
         return r
     RSMDef.diffusion_equation = staticmethod(spy)
+    orig_coef = RSMDef.__dict__['diffusion_coefficient']
+    orig_dis = RSMDef.__dict__['dissipation_bougeault']
+    tes = []
+
+    def spy_dis(g, nz, z, dz, te, pt):
+        tes.append(list(te))
+        return orig_dis.__func__(g, nz, z, dz, te, pt)
+
+    def spy_coef(self, rho, z, dz, z0, disp, tempRur, heatRur, nz, uref, th, parameter):
+        kt, ustar = orig_coef(self, rho, z, dz, z0, disp, tempRur, heatRur, nz, uref, th, parameter)
+        if coef_rec is not None:
+            coef_rec.append(dict(kt=list(kt), te=tes[-1] if tes else None, nz=nz, heat=heatRur,
+                                 uref=uref, ustar=ustar, dlu=list(self.dlu), dld=list(self.dld),
+                                 grid_ok=rsmcoef.grid_ok(nz, z, dz)))
+        return kt, ustar
+    orig_vdm = RSMDef.__dict__['vdm']
+
+    def spy_vdm(self, forc, rural, parameter, simTime):
+        hyp_rec.append(rsmcoef.live_hyps(self, forc, parameter, simTime))
+        return orig_vdm(self, forc, rural, parameter, simTime)
+    if coef_rec is not None:
+        RSMDef.diffusion_coefficient = spy_coef
+        RSMDef.dissipation_bougeault = staticmethod(spy_dis)
+    if hyp_rec is not None:
+        RSMDef.vdm = spy_vdm
     out = os.path.join(chk.work(), 'epw')
     stdout = sys.stdout
     try:
@@ -376,6 +411,9 @@ def live_profiles(chk, ndays=1):
         sys.stdout.close()
         sys.stdout = stdout
         RSMDef.diffusion_equation = orig
+        RSMDef.diffusion_coefficient = orig_coef
+        RSMDef.dissipation_bougeault = orig_dis
+        RSMDef.vdm = orig_vdm
         logging.disable(logging.NOTSET)
     bad = []
     shapes = {}
@@ -399,9 +437,9 @@ def live_profiles(chk, ndays=1):
 
 # ----------------------------------------------------------------------------- check
 def run(chk):
-    chk.proof(MODULE, THEOREMS)
+    chk.proof(MODULE, THEOREMS, extra_modules=[MODULE_COEF])
     if chk.tier == 'thorough':
-        chk.leanchecker([MODULE])
+        chk.leanchecker([MODULE, MODULE_COEF])
     pkg = fracexec.load()
     quick = chk.tier == 'quick'
 
@@ -480,7 +518,9 @@ def run(chk):
                              for k in sorted(set(s['kind'] for s in systems))})
 
     # ---- live profiles (floats; sanity only, with a tolerance that rounding cannot reach)
-    rec, badl, shapes, crash = live_profiles(chk, ndays=1 if quick else 7)
+    coef_rec, hyp_rec = [], []
+    rec, badl, shapes, crash = live_profiles(chk, ndays=1 if quick else 7, coef_rec=coef_rec,
+                                             hyp_rec=hyp_rec)
     if crash:
         chk.notes.append('live simulation stopped early with %s after %d diffusion calls' % (
             crash, len(rec)))
@@ -494,6 +534,51 @@ def run(chk):
                'every call of RSMDef.diffusion_equation during a real float simulation '
                '(initialize_singapore.uwg): bottom, top and bounds within 1e-9*max|T|',
                mismatches=len(badl), branches=shapes)
+    # live diffusion_coefficient: min(Kt) >= 0, te >= 0.01, grid hypotheses at the real call site
+    badc = []
+    lb = {}
+    for k, c in enumerate(coef_rec):
+        tag = ('unstable' if c['heat'] > 1e-2 else 'stable') + ('' if c['grid_ok'] else '|grid-not-ok')
+        lb[tag] = lb.get(tag, 0) + 1
+        msg = None
+        if not all(v == v and abs(v) != float('inf') for v in c['kt']):
+            msg = 'non-finite Kt'
+        elif min(c['kt']) < 0:
+            msg = 'min(Kt) = %r < 0' % min(c['kt'])
+        elif c['te'] is not None and min(c['te']) < 0.01:
+            msg = 'min(te) = %r < 0.01' % min(c['te'])
+        elif not c['grid_ok']:
+            msg = 'the grid handed to diffusion_coefficient violates GridOK'
+        elif len(c['kt']) != c['nz'] + 1:
+            msg = 'Kt has %d entries for nz = %d' % (len(c['kt']), c['nz'])
+        elif c['te'] is not None and any(
+                abs(c['kt'][i] - 0.4 * min(c['dlu'][i], c['dld'][i]) * c['te'][i] ** 0.5) >
+                1e-12 * max(1.0, abs(c['kt'][i])) for i in range(c['nz'])):
+            msg = 'Kt is not 0.4*min(dlu, dld)*sqrt(te)'
+        if msg:
+            badc.append((k, msg, c))
+    for k, msg, c in badc[:2]:
+        chk.violation('impl-violation', 'live diffusion_coefficient (float run, Singapore, dtSim 300, '
+                      'call %d)' % k, case={k2: c[k2] for k2 in ('nz', 'heat', 'uref', 'kt', 'te')},
+                      observed=msg, expected='min(Kt) >= 0, finite, min(te) >= 0.01, GridOK at the call')
+    chk.direct('live-coefficients(RSM.diffusion_coefficient)', len(coef_rec), len(coef_rec),
+               'every call of RSMDef.diffusion_coefficient during the same real float simulation '
+               '(the RSM object): min(Kt) >= 0 and finite, te >= 0.01, nz+1 entries, Kt = '
+               '0.4*min(dlu, dld)*sqrt(te), the grid passed satisfies GridOK (in doubles)', mismatches=len(badc), branches=lb)
+    badh = [(k, b) for k, b in enumerate(hyp_rec) if b]
+    for k, b in badh[:1]:
+        chk.violation('impl-violation', 'hypotheses of vdm_max_principle at a live vdm call (call %d)' % k,
+                      case={'call': k}, observed='violated: ' + '; '.join(b),
+                      expected='StepHyp holds before every vdm call of a real run (vdm_step_preserves)')
+    chk.direct('live-hypotheses(RSM.vdm)', len(hyp_rec), len(hyp_rec),
+               'StepHyp of Props/C16Coef.lean (list lengths, positive temperatures / top pressure / '
+               'spacings / constants / forcing, GridOK, nzref >= 2, dt >= 0) evaluated in doubles on the '
+               'object right before every real vdm call of the same simulation (first call = state '
+               'left by the constructor)', mismatches=len(badh))
+    chk.measurements['live_coefficient_calls'] = len(coef_rec)
+    if coef_rec:
+        chk.measurements['live_min_Kt'] = min(min(c['kt']) for c in coef_rec)
+        chk.measurements['live_min_te'] = min(min(c['te']) for c in coef_rec if c['te'])
     chk.measurements['live_calls'] = len(rec)
     chk.measurements['live_list_lengths(co,da,daz,cd,dz)'] = shapes
     chk.assumptions.append(
@@ -503,9 +588,18 @@ def run(chk):
     chk.notes.append('theorems are proved for nz >= 2 (the property asks nz >= 3); with nz = 1 the '
                      'code returns [0] and with nz = 0 it raises IndexError')
 
+    # ---- second part: where cd, da, daz come from (diffusion_coefficient, vdm)
+    rsmcoef.run_coef(chk)
+
 
 def replay(chk, path):
     v = json.load(open(path))
+    r = rsmcoef.replay_case(v['case'])
+    if r is not None:
+        print(r[1])
+        if not r[0]:
+            print('VIOLATION property=C16 replay=%s' % path)
+        return 0 if r[0] else 1
     cs = case_unjson(v['case'])
     pkg = fracexec.load()
     if 'A' in cs:
